@@ -22,7 +22,9 @@ pub fn bounds(sc: &Scenario) -> Vec<(&'static str, usize)> {
         ("pending_player", 2 * mp + 2 * md + 4),
         // cap 128, plus what one call can flush before the disconnect takes effect
         ("pending_spec", 128 + mp + md + 3),
-        ("recv_inputs", 2 * mp.max(sc.specs.iter().map(|s| s.window as usize).max().unwrap_or(0)) + 2),
+        // the receive history covers the sender's whole unacknowledged window (128 + 1 inputs) or twice the
+        // prediction window, whichever is larger (fix 5b: it used to be twice the window only)
+        ("recv_inputs", (2 * mp.max(sc.specs.iter().map(|s| s.window as usize).max().unwrap_or(0))).max(129) + 2),
         // documented queue size 32, plus reports that overtook the one which triggered the pruning (reordering)
         ("pending_checksums", 48),
         ("checksum_hist", 33),
@@ -66,7 +68,9 @@ pub fn eval(sc: &Scenario) -> CaseResult {
                 // drift: a leak shows as growth of the second half's maximum over the first half's
                 let (h0, h1) = (get(&bm[0], k), get(&bm[1], k));
                 // (buffers with a hard cap - events, checksum maps, spectator pending - legitimately move between 0 and their cap)
-                let capped = matches!(*k, "events" | "pending_checksums" | "checksum_hist" | "pending_spec" | "send_queue_after_poll");
+                // (since fix d0d3e9a the receive history is one of them: it fills up to its constant size of 129 + the frame -1
+                // entry over the first 130 frames received, which a late-starting or stalling peer reaches in the second half)
+                let capped = matches!(*k, "events" | "pending_checksums" | "checksum_hist" | "pending_spec" | "send_queue_after_poll" | "recv_inputs");
                 if !capped && h1 > 2 * h0 + 8 && !sc.ops.iter().any(|o| matches!(o, Op::LinkDown { .. } | Op::Profile { .. })) {
                     r.violation = Some((format!("C18.drift|{k}"), format!("{name}: buffer '{k}' maximum grew from {h0} (first half) to {h1} (second half) under a stationary schedule")));
                     break 'outer;
@@ -192,7 +196,7 @@ pub fn run_prop(ctx: &Ctx) -> PropReport {
     let mut rep = PropReport::new("C18", "exploration");
     let tier = ctx.tier;
     rep.part(|| run_random(ctx, "long_runs",
-        "long histories (2000-2600 ticks quick, 6000-9000 thorough) over C01's topologies plus all-local sessions, a fifth each with events never drained / one game saving without checksums while the others report every frame / a spectator whose acknowledgements stop / 40%-loss phases / the only remote peer dying early while the survivor plays on alone, desync detection mostly on with interval 1-2; after EVERY call the buffer sizes (verif-hooks accessor) must satisfy: events <= 100, outgoing_local_inputs == 0 (static equal delays), pending_output <= 2*window + 2*max_delay + 4 for player endpoints and <= 128 + window + max_delay + 3 for spectator endpoints, recv_inputs <= 2*window + 2, pending_checksums <= 48 (32 + reordered reports; one game in a fifth of the runs never supplies checksums, so its session only ever stores the others' reports), local_checksum_history <= 33, send_queue <= 4 after a call; the second half's maximum must not exceed twice the first half's plus 8 (drift = leak: a leak grows linearly with the run length, fluctuations of a lossy link do not) under stationary schedules; a silent spectator must get exactly one Disconnected; non-trivial = >= 1000 frames simulated",
+        "long histories (2000-2600 ticks quick, 6000-9000 thorough) over C01's topologies plus all-local sessions, a fifth each with events never drained / one game saving without checksums while the others report every frame / a spectator whose acknowledgements stop / 40%-loss phases / the only remote peer dying early while the survivor plays on alone, desync detection mostly on with interval 1-2; after EVERY call the buffer sizes (verif-hooks accessor) must satisfy: events <= 100, outgoing_local_inputs == 0 (static equal delays), pending_output <= 2*window + 2*max_delay + 4 for player endpoints and <= 128 + window + max_delay + 3 for spectator endpoints, recv_inputs <= max(2*window, 129) + 2 (the documented size of the unacknowledged-input window), pending_checksums <= 48 (32 + reordered reports; one game in a fifth of the runs never supplies checksums, so its session only ever stores the others' reports), local_checksum_history <= 33, send_queue <= 4 after a call; the second half's maximum must not exceed twice the first half's plus 8 (drift = leak: a leak grows linearly with the run length, fluctuations of a lossy link do not) under stationary schedules; a silent spectator must get exactly one Disconnected; non-trivial = >= 1000 frames simulated",
         || gen(tier), ctx.tier.pick(1500, 6000), eval));
     rep.floors.push(("long_runs".into(), 0.5));
     rep.assumptions = vec!["buffer sizes are read through the verif-hooks accessor after every advance_frame / poll_remote_clients call".into(), "bounds are derived from the code in props/c18.rs::bounds and stated there".into()];
